@@ -71,6 +71,7 @@ fn main() {
         match id.as_str() {
             "C05" => c05::child_main(&a),
             "E2" => e2::worker_main(),
+            "C12" => hubio::child_servemem(args.get(4).map(String::as_str).unwrap_or(""), args.get(5).map(String::as_str).unwrap_or("")),
             "E3" => e3::child_runwait(args.get(4).map(String::as_str).unwrap_or("")),
             _ => machinery_error("no child mode for this id"),
         }
